@@ -818,6 +818,37 @@ def rvalue_places(rv):
 # --------------------------------------------------------------------------
 # A4: relational variant dataflow
 
+def flag_locals(fn):
+    """Bool locals only ever assigned constants, copies or negations of other
+    such locals (lowered `matches!`, `!flag`, `a || b`)."""
+    memo = getattr(fn, "_flag_locals", None)
+    if memo is None:
+        memo = fn._flag_locals = VariantFlow._flag_locals_of(fn)
+    return memo
+
+
+def flag_transfer(fn, flags, bb, env):
+    return VariantFlow._flag_transfer_of(fn, flags, bb, env)
+
+
+def flag_edges(fn, flags, bb, env):
+    """Successors of bb feasible under the flag environment `env` (the state
+    after bb's statements)."""
+    t = fn.term(bb)
+    if t["k"] == "switch":
+        info = fn.switch_info(bb)
+        if info and info["kind"] == "bool" and is_place_operand(info["on"]) \
+                and not op_place(info["on"])[1] and op_place(info["on"])[0] in flags:
+            val = env.get(op_place(info["on"])[0])
+            if isinstance(val, bool):
+                tgt = info["otherwise"]
+                for v, tg in info["cases"]:
+                    if v is val:
+                        tgt = tg
+                return [tgt]
+    return fn.succs(bb)
+
+
 class VariantFlow:
     """Forward dataflow whose state at a block is the set of tuples of enum
     variants (one component per tracked canonical path) with which control can
@@ -825,7 +856,14 @@ class VariantFlow:
     component of P.  The tracked paths must be immutable while the function
     runs (parameters behind shared references, or single-definition locals);
     an assignment to a local on a tracked path's resolution chain widens that
-    component again, so loops are handled soundly."""
+    component again, so loops are handled soundly.
+
+    The state is relational in one more respect: *flag locals* — bool locals
+    that are only ever assigned constants, copies or negations of other flags
+    (the lowering of `matches!(x, P)`, `a || b`, `!flag`) — are tracked per
+    tuple, and a `switchInt` on such a flag only follows the edge its value
+    selects.  `if !matches!(e, Escape::None) { return .. }` is thereby as
+    precise as the `match` it abbreviates."""
 
     def __init__(self, fn, tracked, see_through=None, init=None):
         """tracked: list of (canonical_path, enum_type_string)."""
@@ -840,7 +878,9 @@ class VariantFlow:
         if init is None:
             init = set(itertools.product(*self.doms))
         self.state = {0: frozenset(init)}
+        self.xstate = {0: frozenset((t, frozenset()) for t in init)}
         self.edge_state = {}
+        self.flags = self._flag_locals()
         # blocks that (re)define the root of a tracked path: the component is
         # widened to all variants when control passes through them
         self.widen_at = defaultdict(list)
@@ -853,6 +893,72 @@ class VariantFlow:
                         fn.partial_defs().get(root[1], []):
                     self.widen_at[bb].append(k)
         self._run()
+
+    def _flag_locals(self):
+        return flag_locals(self.fn)
+
+    def _flag_transfer(self, bb, env):
+        return VariantFlow._flag_transfer_of(self.fn, self.flags, bb, env)
+
+    @staticmethod
+    def _flag_locals_of(fn):
+        cands = {i for i, t in enumerate(fn.locals) if t == "bool" and i > fn.arg_count}
+        changed = True
+        while changed:
+            changed = False
+            for l in list(cands):
+                ok = True
+                ds = fn.defs().get(l, [])
+                if not ds or fn.partial_defs().get(l):
+                    ok = False
+                for (bb, idx, kind, payload) in ds:
+                    if kind != "rv":
+                        ok = False
+                        break
+                    rv = payload
+                    if rv[0] == "use":
+                        if is_place_operand(rv[1]):
+                            p = op_place(rv[1])
+                            if p[1] or p[0] not in cands:
+                                ok = False
+                        elif not isinstance(const_val(rv[1]), bool):
+                            ok = False
+                    elif rv[0] == "un" and rv[1] == "Not" and is_place_operand(rv[2]):
+                        p = op_place(rv[2])
+                        if p[1] or p[0] not in cands:
+                            ok = False
+                    else:
+                        ok = False
+                    if not ok:
+                        break
+                if not ok:
+                    cands.discard(l)
+                    changed = True
+        return cands
+
+    @staticmethod
+    def _flag_transfer_of(fn, flags, bb, env):
+        """env: dict flag local -> bool after the statements of bb."""
+        env = dict(env)
+        for s in fn.stmts(bb):
+            if s[0] != "=" or s[1][1] or s[1][0] not in flags:
+                continue
+            dst = s[1][0]
+            rv = s[2]
+            val = None
+            if rv[0] == "use":
+                if is_place_operand(rv[1]):
+                    val = env.get(op_place(rv[1])[0])
+                else:
+                    val = const_val(rv[1])
+            elif rv[0] == "un":
+                v = env.get(op_place(rv[2])[0])
+                val = (not v) if v is not None else None
+            if isinstance(val, bool):
+                env[dst] = val
+            else:
+                env.pop(dst, None)
+        return env
 
     def _widen(self, st, comps):
         import itertools
@@ -870,14 +976,31 @@ class VariantFlow:
         fn = self.fn
         work = deque([0])
         inq = {0}
+        CAP = 6000
         while work:
             bb = work.popleft()
             inq.discard(bb)
-            st = self.state.get(bb, frozenset())
-            if not st:
+            xs = self.xstate.get(bb, frozenset())
+            if not xs:
                 continue
             if bb in self.widen_at:
-                st = self._widen(st, set(self.widen_at[bb]))
+                comps = set(self.widen_at[bb])
+                nx = set()
+                for t, env in xs:
+                    for t2 in self._widen(frozenset([t]), comps):
+                        nx.add((t2, env))
+                xs = frozenset(nx)
+            # flags after the statements of this block
+            if self.flags:
+                nx = set()
+                cache = {}
+                for t, env in xs:
+                    if env not in cache:
+                        cache[env] = frozenset(self._flag_transfer(bb, dict(env)).items())
+                    nx.add((t, cache[env]))
+                xs = frozenset(nx)
+                if len(xs) > CAP:
+                    xs = frozenset((t, frozenset()) for t, _ in xs)
             info = fn.switch_info(bb) if fn.term(bb)["k"] == "switch" else None
             outs = []
             if info and info["kind"] == "discr":
@@ -886,23 +1009,43 @@ class VariantFlow:
                 if comp is not None:
                     listed = [n for n, _ in info["cases"]]
                     for n, tgt in info["cases"]:
-                        outs.append((tgt, self._filter(st, comp, [n])))
-                    rest = [v for v in self.doms[comp] if v not in listed]
-                    outs.append((info["otherwise"], self._filter(st, comp, rest)))
+                        outs.append((tgt, frozenset(x for x in xs if x[0][comp] == n)))
+                    rest = set(v for v in self.doms[comp] if v not in listed)
+                    outs.append((info["otherwise"], frozenset(x for x in xs if x[0][comp] in rest)))
                 else:
-                    outs = [(s, st) for s in fn.succs(bb)]
+                    outs = [(s, xs) for s in fn.succs(bb)]
+            elif info and info["kind"] == "bool" and is_place_operand(info["on"]) \
+                    and not op_place(info["on"])[1] and op_place(info["on"])[0] in self.flags:
+                fl = op_place(info["on"])[0]
+                t_true = t_false = info["otherwise"]
+                seen_vals = set()
+                for v, tgt in info["cases"]:
+                    seen_vals.add(v)
+                    if v is True:
+                        t_true = tgt
+                    if v is False:
+                        t_false = tgt
+                for x in xs:
+                    val = dict(x[1]).get(fl)
+                    if val is True:
+                        outs.append((t_true, frozenset([x])))
+                    elif val is False:
+                        outs.append((t_false, frozenset([x])))
+                    else:
+                        for s in fn.succs(bb):
+                            outs.append((s, frozenset([x])))
             else:
-                outs = [(s, st) for s in fn.succs(bb)]
-            # merge outs with the same target
+                outs = [(s, xs) for s in fn.succs(bb)]
             merged = {}
             for tgt, s in outs:
                 merged[tgt] = merged.get(tgt, frozenset()) | s
             for tgt, s in merged.items():
-                self.edge_state[(bb, tgt)] = s
-                old = self.state.get(tgt, frozenset())
+                self.edge_state[(bb, tgt)] = frozenset(t for t, _ in s)
+                old = self.xstate.get(tgt, frozenset())
                 new = old | s
                 if new != old:
-                    self.state[tgt] = new
+                    self.xstate[tgt] = new
+                    self.state[tgt] = frozenset(t for t, _ in new)
                     if tgt not in inq:
                         work.append(tgt)
                         inq.add(tgt)
